@@ -348,6 +348,15 @@ class Fold(ast.NodeTransformer):
     def visit_Assign(self, node):
         self.generic_visit(node)
         v = node.value
+        # a, b = (f(t) for t in (x, y))   ->   a, b = (f(x), f(y))
+        if len(node.targets) == 1 and isinstance(node.targets[0], (ast.Tuple, ast.List)) and isinstance(v, (ast.GeneratorExp, ast.ListComp)):
+            from .normalize import UnrollComp
+            ex = UnrollComp()._expand(v)
+            if ex is not None and len(ex) == len(node.targets[0].elts):
+                node.value = ast.copy_location(ast.Tuple(elts=ex, ctx=ast.Load()), v)
+                ast.fix_missing_locations(node)
+                self.changed = True
+                v = node.value
         # a, b = map(f, (x, y))   ->   a, b = (f(x), f(y))
         if len(node.targets) == 1 and isinstance(node.targets[0], (ast.Tuple, ast.List)) and isinstance(v, ast.Call) and isinstance(v.func, ast.Name) and v.func.id == 'map' \
                 and len(v.args) >= 2 and not v.keywords and all(isinstance(a, (ast.Tuple, ast.List)) and not any(isinstance(x, ast.Starred) for x in a.elts) for a in v.args[1:]) \
@@ -405,6 +414,19 @@ class Fold(ast.NodeTransformer):
             self.changed = True
         f = node.func
         simple = not any(isinstance(a, ast.Starred) for a in node.args) and not any(k.arg is None for k in node.keywords)
+        if isinstance(f, ast.Name) and f.id in ('isinstance', 'issubclass') and len(node.args) == 2 and isinstance(node.args[1], ast.BinOp) and isinstance(node.args[1].op, ast.BitOr):
+            parts, todo = [], [node.args[1]]
+            while todo:
+                x = todo.pop(0)
+                if isinstance(x, ast.BinOp) and isinstance(x.op, ast.BitOr):
+                    todo = [x.left, x.right] + todo
+                else:
+                    parts.append(x)
+            if all(_type_ref(x) or (isinstance(x, ast.Constant) and x.value is None) for x in parts):
+                parts = [ast.Call(func=ast.Name(id='type', ctx=ast.Load()), args=[x], keywords=[]) if isinstance(x, ast.Constant) else x for x in parts]
+                node.args[1] = ast.copy_location(ast.Tuple(elts=parts, ctx=ast.Load()), node.args[1])
+                ast.fix_missing_locations(node)
+                self.changed = True
         if isinstance(f, ast.Name) and simple:
             if f.id == 'len' and len(node.args) == 1 and not node.keywords and isinstance(node.args[0], (ast.Tuple, ast.List)) \
                     and not any(isinstance(x, ast.Starred) for x in node.args[0].elts) and all(_pure(x) for x in node.args[0].elts):
@@ -1542,26 +1564,52 @@ def _modern_syntax(fn):
     changed = [False]
 
     def first_named(e):
-        """the NamedExpr that is evaluated before anything effectful in e, or None"""
+        """a NamedExpr of e that is evaluated unconditionally and before which only effect-free sub-expressions are evaluated, or None"""
         if isinstance(e, ast.NamedExpr):
             return e if isinstance(e.target, ast.Name) and not any(isinstance(x, ast.NamedExpr) for x in ast.walk(e.value)) else None
         if isinstance(e, ast.Compare):
-            return first_named(e.left)
-        if isinstance(e, ast.BoolOp):
-            return first_named(e.values[0])
-        if isinstance(e, ast.UnaryOp):
-            return first_named(e.operand)
-        if isinstance(e, ast.BinOp):
-            return first_named(e.left)
-        if isinstance(e, ast.Call) and isinstance(e.func, (ast.Name, ast.Attribute)) and _pure(e.func):
-            return first_named(e.args[0]) if e.args and not isinstance(e.args[0], ast.Starred) else None
-        if isinstance(e, ast.Subscript):
-            return first_named(e.value)
-        if isinstance(e, ast.Attribute):
-            return first_named(e.value)
+            seq = [e.left] + list(e.comparators)
+        elif isinstance(e, ast.BoolOp):
+            seq = [e.values[0]]                 # the other operands are evaluated conditionally
+        elif isinstance(e, ast.UnaryOp):
+            seq = [e.operand]
+        elif isinstance(e, ast.BinOp):
+            seq = [e.left, e.right]
+        elif isinstance(e, ast.Call):
+            if any(isinstance(a_, ast.Starred) for a_ in e.args) or any(k.arg is None for k in e.keywords):
+                return None
+            seq = [e.func] + list(e.args) + [k.value for k in e.keywords]
+        elif isinstance(e, ast.Subscript):
+            seq = [e.value, e.slice]
+        elif isinstance(e, ast.Attribute):
+            seq = [e.value]
+        elif isinstance(e, (ast.Tuple, ast.List)):
+            seq = list(e.elts)
+        else:
+            return None
+        for x in seq:
+            if any(isinstance(y, ast.NamedExpr) for y in ast.walk(x)):
+                return first_named(x)
+            if not _pure(x):
+                return None
         return None
 
     def pattern_test(subj, pat):
+        if isinstance(pat, ast.MatchSequence) and isinstance(subj, (ast.Tuple, ast.List)) and len(pat.patterns) == len(subj.elts) \
+                and not any(isinstance(p_, ast.MatchStar) for p_ in pat.patterns) and not any(isinstance(x, ast.Starred) for x in subj.elts):
+            parts = []
+            for sub, p_ in zip(subj.elts, pat.patterns):
+                if isinstance(p_, ast.MatchAs) and p_.pattern is None and p_.name is None:
+                    continue
+                t = pattern_test(sub, p_)
+                if t is None:
+                    return None
+                parts.append(t)
+            if not parts:
+                return ast.Constant(value=True)
+            return parts[0] if len(parts) == 1 else ast.BoolOp(op=ast.And(), values=parts)
+        if isinstance(pat, ast.MatchClass) and not pat.patterns and not pat.kwd_patterns and _type_ref(pat.cls):
+            return ast.Call(func=ast.Name(id='isinstance', ctx=ast.Load()), args=[copy.deepcopy(subj), pat.cls], keywords=[])
         if isinstance(pat, ast.MatchValue) and (_const_key(pat.value) is not None or _type_ref(pat.value)):
             return ast.Compare(left=copy.deepcopy(subj), ops=[ast.Eq()], comparators=[pat.value])
         if isinstance(pat, ast.MatchSingleton):
@@ -1589,23 +1637,43 @@ def _modern_syntax(fn):
                 for c in s.cases:
                     c.body = block(c.body) or [ast.Pass()]
                 subj = s.subject
-                ok = _pure(subj) and isinstance(subj, (ast.Name, ast.Attribute, ast.Subscript, ast.Constant))
+                pre = []
+                if isinstance(subj, ast.Call) and _test_pure(subj):
+                    # the subject is evaluated once: bind it
+                    nm = 'match_subject__%d' % getattr(s, 'lineno', 0)
+                    pre = [ast.copy_location(ast.Assign(targets=[ast.Name(id=nm, ctx=ast.Store())], value=subj), s)]
+                    subj = ast.copy_location(ast.Name(id=nm, ctx=ast.Load()), subj)
+                ok = (_pure(subj) and isinstance(subj, (ast.Name, ast.Attribute, ast.Subscript, ast.Constant))) or \
+                    (isinstance(subj, (ast.Tuple, ast.List)) and all(_test_pure(x) for x in subj.elts))
                 tests, default = [], None
                 for i, c in enumerate(s.cases):
                     if c.guard is not None:
                         ok = False
                         break
-                    if isinstance(c.pattern, ast.MatchAs) and c.pattern.pattern is None and c.pattern.name is None:
+                    pat, bind = c.pattern, None
+                    if isinstance(pat, ast.MatchAs) and pat.pattern is not None and pat.name is not None and isinstance(subj, (ast.Name, ast.Attribute)):
+                        pat, bind = pat.pattern, c.pattern.name
+                    if isinstance(pat, ast.MatchAs) and pat.pattern is None and pat.name is None:
                         if i != len(s.cases) - 1:
                             ok = False
                         default = c.body
                         continue
-                    t = pattern_test(subj, c.pattern)
+                    if isinstance(pat, ast.MatchAs) and pat.pattern is None and pat.name is not None and i == len(s.cases) - 1 and isinstance(subj, (ast.Name, ast.Attribute)):
+                        # `case other:` - irrefutable capture as the last case
+                        default = [ast.copy_location(ast.Assign(targets=[ast.Name(id=pat.name, ctx=ast.Store())], value=copy.deepcopy(subj)), s)] + c.body
+                        continue
+                    t = pattern_test(subj, pat)
                     if t is None:
                         ok = False
                         break
-                    tests.append((t, c.body))
+                    body = c.body
+                    if bind:
+                        body = [ast.copy_location(ast.Assign(targets=[ast.Name(id=bind, ctx=ast.Store())], value=copy.deepcopy(subj)), s)] + body
+                    tests.append((t, body))
                 if ok and tests:
+                    out.extend(pre)
+                    for x in pre:
+                        ast.fix_missing_locations(x)
                     chain = list(default or [])
                     for t, body in reversed(tests):
                         node = ast.If(test=t, body=body, orelse=chain)
